@@ -83,3 +83,88 @@ Proof.
   destruct (0 <? unconf c) eqn:Eu; cbn; rewrite ?Hw; cbn;
   destruct (mq_has_sent (mq s)); cbn; rewrite ?Hw; cbn; rewrite ?app_nil_r, <- ?app_assoc; auto.
 Qed.
+
+(* ------------------------------------------------------------------ C11: acknowledgement duty and supervision timers *)
+
+(* t2: an unacknowledged received I-frame that is t2 old at a tick is acknowledged in that tick with the
+   current N(R), and nothing stays unacknowledged *)
+Lemma t2_fires g now c :
+  wmode c = 0 -> 0 < unconf c -> lastconf c <> NOTIME -> lastconf c < now -> now - lastconf c >= c_t2 g * 1000 ->
+  let r := tmo_t2 g now c in snd r = [OTx (cid c) (enc_s (vr c))] /\ unconf (fst r) = 0.
+Proof.
+  intros Hw Hu Hl1 Hl2 Hl3. unfold tmo_t2.
+  assert (A1 : 0 <? unconf c = true) by (apply Z.ltb_lt; exact Hu).
+  assert (A2 : lastconf c =? NOTIME = false) by (apply Z.eqb_neq; exact Hl1).
+  assert (A3 : lastconf c >? now = false) by (rewrite Z.gtb_ltb; apply Z.ltb_ge; lia).
+  assert (A4 : now >? lastconf c = true) by (rewrite Z.gtb_ltb; apply Z.ltb_lt; lia).
+  assert (A5 : now - lastconf c >=? c_t2 g * 1000 = true) by (rewrite Z.geb_leb; apply Z.leb_le; lia).
+  rewrite A1, A2, A3. cbn [negb andb]. rewrite A2, A4, A5. cbn [negb andb].
+  unfold send_s_raw, wr. cbn. rewrite Hw. cbn. auto.
+Qed.
+
+(* ... and not before: younger than t2 nothing is sent by the timer *)
+Lemma t2_quiet g now c :
+  lastconf c <> NOTIME -> lastconf c <= now -> now - lastconf c < c_t2 g * 1000 -> tmo_t2 g now c = (c, []).
+Proof.
+  intros Hl1 Hl2 Hl3. unfold tmo_t2. destruct (0 <? unconf c); [|reflexivity].
+  assert (A2 : lastconf c =? NOTIME = false) by (apply Z.eqb_neq; exact Hl1).
+  assert (A3 : lastconf c >? now = false) by (rewrite Z.gtb_ltb; apply Z.ltb_ge; lia).
+  assert (A5 : now - lastconf c >=? c_t2 g * 1000 = false) by (rewrite Z.geb_leb; apply Z.leb_gt; lia).
+  rewrite A2, A3. cbn [negb andb]. rewrite A2, A5. rewrite andb_false_r. reflexivity.
+Qed.
+
+(* t1 on sent I-frames: the tick reports a timeout exactly when the oldest unacknowledged I-frame is t1 old *)
+Lemma t1_rule g now c e r : kbuf c = e :: r -> k_time e <= now ->
+  snd (tmo_t1 g now c) = negb ((k_time e <? now) && (c_t1 g * 1000 <=? now - k_time e)).
+Proof.
+  intros Hk Ht. unfold tmo_t1. rewrite Hk.
+  assert (A : k_time e >? now = false) by (rewrite Z.gtb_ltb; apply Z.ltb_ge; lia). rewrite A. cbn [snd].
+  rewrite Z.gtb_ltb, Z.geb_leb. reflexivity.
+Qed.
+Lemma t1_empty g now c : kbuf c = [] -> tmo_t1 g now c = (c, true).
+Proof. intros H. unfold tmo_t1. rewrite H. reflexivity. Qed.
+
+(* t3: after t3 without receiving anything a TESTFR act is sent (unless one is pending) and its own t1 starts *)
+Lemma t3_fires g now c :
+  wmode c = 0 -> wtest c = false -> nextT3 c <= now + c_t3 g * 1000 -> nextT3 c < now ->
+  let r := tmo_t3 g now c in
+  snd r = [OTx (cid c) u_testfr_act] /\ wtest (fst r) = true /\ nextTest (fst r) = now + c_t1 g * 1000.
+Proof.
+  intros Hw Hwt Hp Hn. unfold tmo_t3. rewrite Hwt.
+  assert (A : nextT3 c >? now + c_t3 g * 1000 = false) by (rewrite Z.gtb_ltb; apply Z.ltb_ge; lia). rewrite A.
+  assert (B : now >? nextT3 c = true) by (rewrite Z.gtb_ltb; apply Z.ltb_lt; lia). rewrite B.
+  unfold wr. rewrite Hw. cbn. auto.
+Qed.
+Lemma t3_quiet g now c : wtest c = false -> now <= nextT3 c <= now + c_t3 g * 1000 -> tmo_t3 g now c = (c, []).
+Proof.
+  intros Hwt Hn. unfold tmo_t3. rewrite Hwt.
+  assert (A : nextT3 c >? now + c_t3 g * 1000 = false) by (rewrite Z.gtb_ltb; apply Z.ltb_ge; lia). rewrite A.
+  assert (B : now >? nextT3 c = false) by (rewrite Z.gtb_ltb; apply Z.ltb_ge; lia). rewrite B. reflexivity.
+Qed.
+
+(* TESTFR act unanswered: the tick reports a timeout exactly when now is beyond its t1 deadline *)
+Lemma testfr_rule g now c : wtest c = true -> nextTest c <= now + c_t1 g * 1000 ->
+  snd (tmo_test g now c) = negb (nextTest c <? now).
+Proof.
+  intros Hw Hp. unfold tmo_test. rewrite Hw.
+  assert (A : nextTest c >? now + c_t1 g * 1000 = false) by (rewrite Z.gtb_ltb; apply Z.ltb_ge; lia). rewrite A.
+  cbn [snd]. rewrite Z.gtb_ltb. reflexivity.
+Qed.
+
+(* w: after handling a frame, w unacknowledged received I-frames force an S-frame in the same step *)
+Lemma w_rule g now s c :
+  forall rs' rest f, recv_call (rs c) (avail c) (peer_closed c) = (rs', rest, RFrame f) -> running c = true ->
+  let '(s2, c2, ok, o) := handle_message g now s (c <| rs := rs' |> <| avail := rest |>) f in
+  let c3 := if ok then c2 else c2 <| running := false |> in
+  c_w g <= unconf c3 -> wmode c3 = 0 ->
+  exists o', (let '(_, _, ob) := handle_tcp g now s c in ob) = o' ++ [OTx (cid c3) (enc_s (vr c3))].
+Proof.
+  intros rs' rest f Hr Hrun. unfold handle_tcp. rewrite Hr. cbn [running]. 
+  assert (Hrun' : running (c <| rs := rs' |> <| avail := rest |>) = true) by exact Hrun. rewrite Hrun'.
+  destruct (handle_message g now s (c <| rs := rs' |> <| avail := rest |>) f) as [[[s2 c2] ok] o].
+  intros Hw Hwm.
+  assert (A : unconf (if ok then c2 else c2 <| running := false |>) >=? c_w g = true) by (rewrite Z.geb_leb; apply Z.leb_le; exact Hw).
+  rewrite A. unfold send_s_raw, wr. cbn. 
+  assert (B : wmode (if ok then c2 else c2 <| running := false |>) = 0) by exact Hwm.
+  destruct ok; cbn in *; rewrite B; cbn; eexists; reflexivity.
+Qed.
